@@ -1,10 +1,15 @@
 (* packetizer.go: Packetize, GeneratePadding, SkipSamples, EnableAbsSendTime.
    The payloader is a parameter; the clock is an argument of Packetize.  Fixed tree: the fragment
-   budget leaves room for the abs-send-time extension, padding packets carry PaddingSize 255. *)
+   budget leaves room for the abs-send-time extension in the form its id requires, padding packets carry PaddingSize 255. *)
 From Coq Require Import ZArith List Lia Bool.
 From RTP Require Import Base.Bits Base.Res Base.ListX Model.RtpPacket Model.Sequencer Model.ExtCodecs Model.Ntp.
 Import ListNotations.
 Open Scope Z_scope.
+
+(* bytes in front of the payload: the fixed header, plus the extension block that holds the
+   abs-send-time element - one-byte form (4 + 1 + 3) for ids up to 14, two-byte form (4 + 2 + 3,
+   padded to 12) above *)
+Definition abs_overhead (a : Z) : Z := if a =? 0 then 12 else if 14 <? a then 24 else 20.
 
 Record pktz : Type := mkPktz {
   pz_mtu : Z; pz_pt : Z; pz_ssrc : Z; pz_ts : Z; pz_abs : Z; pz_seq : seqr }.
@@ -38,7 +43,7 @@ Section WithPayloader.
     match payload with
     | [] => (p, [])
     | _ =>
-      let overhead := if pz_abs p =? 0 then 12 else 20 in
+      let overhead := abs_overhead (pz_abs p) in
       let frags := pay (u16 (pz_mtu p - overhead)) payload in
       let '(s', pkts) := build_packets p (pz_seq p) frags in
       let p' := mkPktz (pz_mtu p) (pz_pt p) (pz_ssrc p) (u32 (pz_ts p + samples)) (pz_abs p) s' in
